@@ -121,6 +121,7 @@ Inductive ofile := OErr (k : N) | OTables (l : list otable).
 Record fcase := mkF {
   fc_suffix : suffix;
   fc_notitle : bool;
+  fc_nolabel : bool;
   fc_text : text;
   fc_written : option (list wtable);
   fc_obs : ofile
@@ -189,7 +190,7 @@ Fixpoint check_tables (ms : list table) (os : list otable) : list nat :=
   end.
 
 Definition correspondence (c : fcase) : list nat :=
-  match read_table_file (fc_suffix c) (fc_notitle c) (fc_text c), fc_obs c with
+  match read_table_file (fc_suffix c) (fc_notitle c) (fc_nolabel c) (fc_text c), fc_obs c with
   | ROk ms, OTables os => check_tables ms os
   | RErr j, OErr k => tag (N.eqb j k) 1
   | RUnmodelled, _ => [1001]
@@ -357,8 +358,8 @@ Definition oracle (c : fcase) : list nat :=
 
 (* ---- guard facts ---------------------------------------------------------------------------------- *)
 (* 201: an ext table whose designated final row carries another OBJ than the last printed iteration
-   202: an ext table without iteration 0 whose final row is not the first row
-   203: a table without label line (NOHEADER / NOLABEL) *)
+   202: (informational since the fix 54e76a4) an ext table without iteration 0 whose final row is not the first row
+   203: (informational since the fix 5f0fde5) a table without label line (NOHEADER / NOLABEL) *)
 Definition guard_ext_table (w : wtable) : list nat :=
   match wrows_with w code_final with
   | [] => []
@@ -378,8 +379,10 @@ Definition guards (c : fcase) : list nat :=
   | Some ws =>
       (match fc_suffix c with SExt => flat_map guard_ext_table ws | _ => [] end) ++
       tag (forallb w_showlabels ws) 203 ++
-      (* 210: the written file lies in the domain of the theorem parse_render (wfile_ok), read without notitle *)
-      tag (negb (wfile_ok (fc_suffix c) ws && negb (fc_notitle c))) 210
+      (* 210: the written file lies in the domain of the theorems parse_render / parse_render_notitle *)
+      tag (negb (if fc_notitle c
+                 then match ws with [t] => wtable_notitle_ok (fc_nolabel c) t | _ => false end
+                 else wfile_ok (fc_suffix c) (fc_nolabel c) ws)) 210
   | None => []
   end.
 
@@ -427,7 +430,6 @@ Record rcase := mkR {
   rc_nm : list (text * text);              (* NONMEM label -> parameter / eta name (inverted create_name_map) *)
   rc_rv : list text;
   rc_covstatus : bool;                     (* covariance step status the .lst parser derived *)
-  rc_values_writable : bool;               (* DataFrame.values is writable in the installed pandas *)
   rc_wext : list wtable;
   rc_wcov : option wtable; rc_wcor : option wtable; rc_wcoi : option wtable; rc_wphi : option (list wtable);
   rc_wtab : option wtab;
@@ -482,7 +484,7 @@ Definition phi_res_match (m o : phi_results) : bool :=
   list_eqb (list_eqb (list_eqb cell_match)) (pr_iec m) (pr_iec o).
 
 Definition rcorrespondence (c : rcase) : list nat :=
-  match read_run (rc_ext c) (rc_pfix c) (rc_nm c) (rc_covstatus c) (rc_cov c) (rc_cor c) (rc_coi c) (rc_values_writable c), rc_obs c with
+  match read_run (rc_ext c) (rc_pfix c) (rc_nm c) (rc_covstatus c) (rc_cov c) (rc_cor c) (rc_coi c), rc_obs c with
   | RUnmodelled, _ => [1001]
   | ROk RunNone, RRNone => []
   | ROk RunFailed, RRFailed ofv pe => tag (is_nan ofv && nan_named pe) 1
@@ -696,8 +698,7 @@ Definition matrix_close (a b : matrix) : bool :=
   list_eqb text_eqb (m_rows a) (m_rows b) && list_eqb text_eqb (m_cols a) (m_cols b) &&
   list_eqb (list_eqb cell_close) (m_vals a) (m_vals b).
 
-(* 204: the JSON round trip changes values by at most 1e-15 (absolute, or relative for large values): 15 decimal places
-   205: a .cor file is read while DataFrame.values is read-only *)
+(* 204: the JSON round trip changes values by at most 1e-15 (absolute, or relative for large values): 15 decimal places *)
 Definition rguards_json (c : rcase) : list nat :=
   match rc_obs c with
   | RROk o =>
@@ -709,7 +710,6 @@ Definition rguards_json (c : rcase) : list nat :=
 
 Definition rguards (c : rcase) : list nat :=
   rguards_json c ++
-  tag (negb (match rc_wcor c with Some _ => rc_covstatus c && negb (rc_values_writable c) | None => false end)) 205 ++
   (match last_opt (est_wtables (rc_wext c)) with Some w => guard_ext_table w | None => [] end) ++
   (match rc_wtab c with Some t => tag (w_showlabels (wtb_table t)) 203 | None => [] end).
 
